@@ -15,7 +15,7 @@ func Run(r *core.Report, env *build.Env) {
 		return
 	}
 	r.Assumptions = append(r.Assumptions, "unicode/utf8 modelled by the UTF-8 specification", "strconv.ParseInt interpreted from its source (trusted standard library)", "fmt.Sprintf opaque")
-	r.Outside = append(r.Outside, "decimal-comma literals (correct rounding is strconv's; the literal-to-ParseFloat hand-over is not covered)", "constants in generated code and run-time printing",
+	r.Outside = append(r.Outside, "Kommazahl literals longer than dd,dd, in particular literals beyond the range of a double (strconv.ParseFloat runs concretely on each solver-chosen digit string)", "constants in generated code and run-time printing",
 		"text bodies longer than the bound; truth-value and list literals")
 	pk := "src/parser"
 	hs := []goh.Harness{
@@ -29,11 +29,15 @@ func Run(r *core.Report, env *build.Env) {
 		{Pkg: pk, Func: "VerifC19IntZero", Bound: "all Zahl literals 0ddd"},
 		{Pkg: pk, Func: "VerifC19IntZeros", Bound: "all Zahl literals 00dd"},
 		{Pkg: pk, Func: "VerifC19IntMax", Bound: "all Zahl literals 922337203685477dddd (around 2^63)"},
+		{Pkg: pk, Func: "VerifC19Float11", Bound: "all Kommazahl literals d,d through the whole frontend"},
+		{Pkg: pk, Func: "VerifC19Float12", Bound: "all Kommazahl literals d,dd"},
+		{Pkg: pk, Func: "VerifC19Float21", Bound: "all Kommazahl literals dd,d"},
 		{Pkg: pk, Func: "VerifC19IntOver", Bound: "all Zahl literals 1844674407370955dddd (around 2^64)"},
 	}
 	if r.Tier == "thorough" {
 		hs = append(hs,
 			goh.Harness{Pkg: pk, Func: "VerifC19Text4", Bound: "text literal bodies: all 4-byte strings"},
+			goh.Harness{Pkg: pk, Func: "VerifC19Float22", Bound: "all Kommazahl literals dd,dd"},
 			goh.Harness{Pkg: pk, Func: "VerifC19IntMax3", Bound: "all Zahl literals 9223372036854775ddd"},
 			goh.Harness{Pkg: pk, Func: "VerifC19IntLong", Bound: "all Zahl literals 12345678901234567dd"},
 			goh.Harness{Pkg: pk, Func: "VerifC19IntLongZero", Bound: "all Zahl literals 000000000000000000ddd"},
